@@ -2,6 +2,7 @@ package checker
 
 import (
 	"sort"
+	"strings"
 
 	"github.com/jsightapi/jsight-schema-go-library/errors"
 	"github.com/jsightapi/jsight-schema-go-library/internal/json"
@@ -39,10 +40,40 @@ func CheckRootSchema(rootSchema *schema.Schema) {
 	for name := range rootSchema.TypesList() {
 		names = append(names, name)
 	}
-	sort.Strings(names)
+	sort.Slice(names, func(i, j int) bool {
+		return typeGoesFirst(rootSchema.TypesList(), names[i], names[j])
+	})
 	for _, name := range names {
 		c.checkType(name, rootSchema.TypesList()[name], rootSchema.TypesList())
 	}
+}
+
+// typeGoesFirst order in which types are checked. The name of an unnamed type
+// ("#" and an address) says nothing stable: such types go by the place in the
+// text they were made from.
+func typeGoesFirst(tt map[string]schema.Type, a, b string) bool {
+	if !strings.HasPrefix(a, "#") || !strings.HasPrefix(b, "#") {
+		return a < b
+	}
+	fa, pa := placeOfUnnamedType(tt[a])
+	fb, pb := placeOfUnnamedType(tt[b])
+	if fa != fb {
+		return fa < fb
+	}
+	if pa != pb {
+		return pa < pb
+	}
+	return a < b
+}
+
+func placeOfUnnamedType(t schema.Type) (file string, pos int) {
+	if f := t.RootFile(); f != nil {
+		file = f.Name()
+	}
+	if s := t.Schema(); s != nil && s.RootNode() != nil {
+		pos = int(s.RootNode().BasisLexEventOfSchemaForNode().Begin())
+	}
+	return file, pos
 }
 
 func (c *checkSchema) checkType(name string, typ schema.Type, ss map[string]schema.Type) {
